@@ -1015,10 +1015,6 @@ theorem asArray_spec (ps : List (Int × V)) (hf : Functional ps) :
     · rintro ⟨i, c, rfl, h⟩
       exact ⟨i, c, rfl, (mem_kden _ _ _ _).1 ((mem_kden_build ps hf i c).2 h)⟩
 
-/-- the pairs leave no index between the lowest and the highest unclaimed -/
-def NoGap {α : Type} (ps : List (Int × α)) : Prop :=
-  ∀ n, n < (build ps).1.length → ∃ x, kget (build ps).1 n = some x
-
 theorem kden_map_getD (l : List (Option Nat)) (off : Int) (h : ∀ n, n < l.length → ∃ x, kget l n = some x) :
     kden ((l.map (fun o => o.getD 0)).map some) off = kden l off := by
   induction l generalizing off with
@@ -1038,6 +1034,7 @@ theorem kden_map_getD (l : List (Option Nat)) (off : Int) (h : ∀ n, n < l.leng
 theorem asBytes_spec (ps : List (Int × Nat)) (hne : ps ≠ []) (hf : Functional ps)
     (hr : ∀ p, p ∈ ps → (p.2 : Int) ≤ 255) (hg : NoGap ps) :
     (asBytes ps).WF ∧ ∀ v, v ∈ (asBytes ps).members ↔ ∃ i c, v = byteV i c ∧ (i, c) ∈ ps := by
+  have hg := build_full ps hf hg
   have hk : ∀ off, kden (((build ps).1.map (fun o => o.getD 0)).map some) off = kden (build ps).1 off :=
     fun off => kden_map_getD _ off hg
   constructor
@@ -1524,3 +1521,629 @@ theorem Plain.filter_spec (p : Plain) (h : p.WF) (f : V → Bool) (ha : FilterAd
       refine ⟨⟨FinSet.sorted_filter f rows h.1, by rw [hl]; simp, ?_⟩, ?_, fun _ => rfl⟩
       · intro x hx; exact h.2.2 x (List.mem_filter.1 hx).1
       · intro v; simp [Plain.members]
+
+/-! ## the interface contract: without -/
+
+theorem seqIndex_eq {len : Nat} {off pos i : Int} (h : seqIndex len off pos = i) (hi : 0 ≤ i) :
+    pos - off = i ∧ i ≤ len := by
+  unfold seqIndex at h
+  simp only at h
+  split at h
+  · rename_i hc; omega
+  · omega
+
+theorem seqIndex_of_range (len : Nat) (off pos : Int) (h0 : 0 ≤ pos - off) (h1 : pos - off ≤ len) :
+    seqIndex len off pos = pos - off := by
+  unfold seqIndex
+  simp only
+  split
+  · rfl
+  · rename_i hc; exact absurd ⟨h0, h1⟩ hc
+
+theorem asChar_none_not_mem_str {s : List (Option Nat)} {off : Int} {holes : Nat}
+    (h : (Plain.str s off holes).WF) {v : V} (hv : asChar v = none) : v ∉ (Plain.str s off holes).members := by
+  intro hm
+  have := Plain.members_bucket _ h v hm
+  have := (bucketOf_strChar_iff v).1 this
+  rw [hv] at this; cases this
+
+theorem strWithoutCore_spec (s : List (Option Nat)) (off : Int) (holes : Nat)
+    (h : (Plain.str s off holes).WF) (v : V) :
+    (strWithoutCore s off holes v).2.2 = kholes (strWithoutCore s off holes v).1 ∧
+    (∀ c, some c ∈ (strWithoutCore s off holes v).1 → (c : Int) ≤ maxRune) ∧
+    ∀ j y, (j, y) ∈ kden (strWithoutCore s off holes v).1 (strWithoutCore s off holes v).2.1 ↔
+      (j, y) ∈ kden s off ∧ charV j y ≠ v := by
+  unfold strWithoutCore
+  cases hc : asChar v with
+  | none =>
+    refine ⟨h.1, h.2.2, ?_⟩
+    intro j y
+    simp only
+    constructor
+    · intro hm
+      refine ⟨hm, ?_⟩
+      intro he
+      apply asChar_none_not_mem_str h hc
+      rw [← he]
+      exact List.mem_map.2 ⟨(j, y), hm, rfl⟩
+    · exact fun hh => hh.1
+  | some p =>
+    obtain ⟨ix, c⟩ := p
+    obtain ⟨rfl, _⟩ := (asChar_eq_some v ix c).1 hc
+    simp only
+    have hne : ∀ j y, charV j y ≠ charV ix c ↔ ¬ (j = ix ∧ y = c) := by
+      intro j y
+      constructor
+      · rintro h1 ⟨rfl, rfl⟩; exact h1 rfl
+      · intro h1 he; exact h1 (charV_inj he)
+    split
+    · rename_i h1
+      obtain ⟨hi, hg⟩ := h1
+      have hix := (seqIndex_eq hi (by omega)).1
+      have hoff : ix = off := by omega
+      obtain ⟨c1, c2⟩ := counts_drop_one s c hg
+      refine ⟨by simp only; rw [c1]; exact h.1, ?_, ?_⟩
+      · intro d hd; exact h.2.2 d (List.mem_of_mem_drop hd)
+      · intro j y
+        rw [mem_kden_drop_one s off c hg, hne, hoff]
+    · split
+      · rename_i _ h2
+        obtain ⟨hi, hg⟩ := h2
+        have hlen := kget_some_lt hg
+        have hix := (seqIndex_eq hi (by omega)).1
+        obtain ⟨c1, c2⟩ := counts_drop_last s c hg
+        refine ⟨by simp only; rw [c1]; exact h.1, ?_, ?_⟩
+        · intro d hd; exact h.2.2 d (List.mem_of_mem_take hd)
+        · intro j y
+          rw [mem_kden_drop_last s off c hg, hne]
+          have : ix = off + ((s.length - 1 : Nat) : Int) := by omega
+          rw [this]
+      · split
+        · rename_i _ _ h3
+          obtain ⟨hi0, hi1, hg⟩ := h3
+          have hix := (seqIndex_eq (rfl : seqIndex s.length off ix = _) (by omega)).1
+          obtain ⟨c1, c2⟩ := counts_eraseAt s _ c hg
+          refine ⟨by simp only; rw [c1, h.1], ?_, ?_⟩
+          · intro d hd
+            unfold eraseAt at hd
+            rcases List.mem_or_eq_of_mem_set hd with hd | hd
+            · exact h.2.2 d hd
+            · cases hd
+          · intro j y
+            rw [mem_kden_eraseAt s off _ c hg, hne]
+            have : ix = off + (((seqIndex s.length off ix).toNat : Nat) : Int) := by omega
+            rw [← this]
+        · rename_i n1 n2 n3
+          refine ⟨h.1, h.2.2, ?_⟩
+          intro j y
+          constructor
+          · intro hm
+            refine ⟨hm, ?_⟩
+            intro he
+            obtain ⟨rfl, rfl⟩ := charV_inj he
+            obtain ⟨hle, hg⟩ := (mem_kden s off j y).1 hm
+            have hlt := kget_some_lt hg
+            have hidx := seqIndex_of_range s.length off j (by omega) (by omega)
+            by_cases h0 : j - off = 0
+            · apply n1
+              rw [hidx]
+              refine ⟨h0, ?_⟩
+              have : (j - off).toNat = 0 := by omega
+              rw [this] at hg; exact hg
+            · by_cases hl : j - off = (s.length : Int) - 1
+              · apply n2
+                rw [hidx]
+                refine ⟨hl, ?_⟩
+                have : (j - off).toNat = s.length - 1 := by omega
+                rw [this] at hg; exact hg
+              · apply n3
+                rw [hidx]
+                exact ⟨by omega, by omega, hg⟩
+          · exact fun hh => hh.1
+
+theorem mem_str_members' (s : List (Option Nat)) (off : Int) (holes : Nat) (v : V) :
+    v ∈ (Plain.str s off holes).members ↔ ∃ i c, v = charV i c ∧ (i, c) ∈ kden s off := by
+  simp only [Plain.members, List.mem_map]
+  constructor
+  · rintro ⟨⟨i, c⟩, hp, rfl⟩; exact ⟨i, c, rfl, hp⟩
+  · rintro ⟨i, c, rfl, hp⟩; exact ⟨(i, c), hp, rfl⟩
+
+theorem strWithout_spec (s : List (Option Nat)) (off : Int) (holes : Nat) (h : (Plain.str s off holes).WF) (v : V) :
+    (strWithout s off holes v).WF ∧
+    ∀ x, x ∈ (strWithout s off holes v).members ↔ x ∈ (Plain.str s off holes).members ∧ x ≠ v := by
+  obtain ⟨c1, c2, c3⟩ := strWithoutCore_spec s off holes h v
+  have hmem : ∀ x, (∃ i c, x = charV i c ∧
+      (i, c) ∈ kden (strWithoutCore s off holes v).1 (strWithoutCore s off holes v).2.1) ↔
+      x ∈ (Plain.str s off holes).members ∧ x ≠ v := by
+    intro x
+    rw [mem_str_members']
+    constructor
+    · rintro ⟨i, c, rfl, hp⟩
+      obtain ⟨h1, h2⟩ := (c3 i c).1 hp
+      exact ⟨⟨i, c, rfl, h1⟩, h2⟩
+    · rintro ⟨⟨i, c, rfl, hp⟩, hne⟩
+      exact ⟨i, c, rfl, (c3 i c).2 ⟨hp, hne⟩⟩
+  have hcnt : strCount (strWithoutCore s off holes v).1 (strWithoutCore s off holes v).2.2 =
+      kcount (strWithoutCore s off holes v).1 := by
+    have := kcount_add_kholes (strWithoutCore s off holes v).1
+    unfold strCount
+    rw [c1]; omega
+  unfold strWithout
+  simp only
+  split
+  · rename_i h0
+    rw [hcnt] at h0
+    refine ⟨trivial, ?_⟩
+    intro x
+    rw [← hmem]
+    simp only [Plain.members, List.not_mem_nil, false_iff]
+    rintro ⟨i, c, _, hp⟩
+    rw [kden_nil_of_kcount_zero _ _ h0] at hp
+    cases hp
+  · rename_i h0
+    rw [hcnt] at h0
+    refine ⟨⟨c1, by omega, c2⟩, ?_⟩
+    intro x
+    rw [← hmem, mem_str_members']
+
+theorem mem_arr_members' (vs : List (Option V)) (off : Int) (count : Nat) (v : V) :
+    v ∈ (Plain.arr vs off count).members ↔ ∃ i x, v = itemV i x ∧ (i, x) ∈ kden vs off := by
+  simp only [Plain.members, List.mem_map]
+  constructor
+  · rintro ⟨⟨i, c⟩, hp, rfl⟩; exact ⟨i, c, rfl, hp⟩
+  · rintro ⟨i, c, rfl, hp⟩; exact ⟨(i, c), hp, rfl⟩
+
+theorem arrWithout_spec (vs : List (Option V)) (off : Int) (count : Nat) (h : (Plain.arr vs off count).WF) (v : V) :
+    (arrWithout vs off count v).WF ∧
+    ∀ x, x ∈ (arrWithout vs off count v).members ↔ x ∈ (Plain.arr vs off count).members ∧ x ≠ v := by
+  have hcount : count = kcount vs := h
+  unfold arrWithout
+  cases hc : asItem v with
+  | none =>
+    refine ⟨h, ?_⟩
+    intro x
+    simp only
+    constructor
+    · intro hm
+      refine ⟨hm, ?_⟩
+      rintro rfl
+      obtain ⟨i, y, rfl, _⟩ := (mem_arr_members' vs off count x).1 hm
+      rw [asItem_itemV] at hc; cases hc
+    · exact fun hh => hh.1
+  | some p =>
+    obtain ⟨ix, y⟩ := p
+    have hv := (asItem_eq_some v ix y).1 hc
+    subst hv
+    simp only
+    have hne : ∀ j z, itemV j z ≠ itemV ix y ↔ ¬ (j = ix ∧ z = y) := by
+      intro j z
+      constructor
+      · rintro h1 ⟨rfl, rfl⟩; exact h1 rfl
+      · intro h1 he; exact h1 (itemV_inj he)
+    have lift : ∀ (vs' : List (Option V)) (off' : Int) (count' : Nat) (c : V) (n : Nat),
+        ix = off + (n : Int) → c = y →
+        (∀ j z, (j, z) ∈ kden vs' off' ↔ (j, z) ∈ kden vs off ∧ ¬ (j = off + (n : Int) ∧ z = c)) →
+        ∀ x, x ∈ (Plain.arr vs' off' count').members ↔ x ∈ (Plain.arr vs off count).members ∧ x ≠ itemV ix y := by
+      intro vs' off' count' c n hix hcy hk x
+      rw [mem_arr_members', mem_arr_members']
+      subst hcy
+      constructor
+      · rintro ⟨j, z, rfl, hp⟩
+        obtain ⟨h1, h2⟩ := (hk j z).1 hp
+        exact ⟨⟨j, z, rfl, h1⟩, (hne j z).2 (by rw [hix]; exact h2)⟩
+      · rintro ⟨⟨j, z, rfl, hp⟩, hx⟩
+        exact ⟨j, z, rfl, (hk j z).2 ⟨hp, by rw [← hix]; exact (hne j z).1 hx⟩⟩
+    split
+    · rename_i hin
+      obtain ⟨h0, h1, hg⟩ := hin
+      split
+      · rename_i hix
+        have hg0 : kget vs 0 = some y := by
+          have : (ix - off).toNat = 0 := by omega
+          rw [this] at hg; exact hg
+        obtain ⟨_, c2⟩ := counts_drop_one vs y hg0
+        refine ⟨by show count - 1 = kcount (vs.drop 1); omega, ?_⟩
+        apply lift _ _ _ y 0 (by omega) rfl
+        intro j z
+        have := mem_kden_drop_one vs off y hg0 j z
+        simpa using this
+      · split
+        · rename_i _ hix
+          have hgl : kget vs (vs.length - 1) = some y := by
+            have : (ix - off).toNat = vs.length - 1 := by omega
+            rw [this] at hg; exact hg
+          obtain ⟨_, c2⟩ := counts_drop_last vs y hgl
+          refine ⟨by show count - 1 = kcount (vs.take (vs.length - 1)); omega, ?_⟩
+          apply lift _ _ _ y (vs.length - 1) (by omega) rfl
+          exact mem_kden_drop_last vs off y hgl
+        · obtain ⟨_, c2⟩ := counts_eraseAt vs _ y hg
+          have hk := mem_kden_eraseAt vs off _ y hg
+          split
+          · rename_i hz
+            refine ⟨trivial, ?_⟩
+            intro x
+            have hk0 : kcount (eraseAt vs (ix - off).toNat) = 0 := by omega
+            have := lift (eraseAt vs (ix - off).toNat) off 0 y (ix - off).toNat (by omega) rfl hk x
+            rw [← this]
+            simp only [Plain.members, kden_nil_of_kcount_zero _ _ hk0, List.map_nil]
+          · refine ⟨by show count - 1 = kcount (eraseAt vs (ix - off).toNat); omega, ?_⟩
+            exact lift _ _ _ y (ix - off).toNat (by omega) rfl hk
+    · rename_i hout
+      refine ⟨h, ?_⟩
+      intro x
+      constructor
+      · intro hm
+        refine ⟨hm, ?_⟩
+        rintro rfl
+        obtain ⟨j, z, he, hle, hg⟩ := (mem_arr_members vs off count _).1 hm
+        obtain ⟨rfl, rfl⟩ := itemV_inj he
+        have hlt := kget_some_lt hg
+        exact hout ⟨by omega, by omega, hg⟩
+      · exact fun hh => hh.1
+
+/-- removing a byte from the middle of a byte array needs a hole (KF-bytes-holes) -/
+def WithoutAdm (p : Plain) (v : V) : Prop :=
+  match p with
+  | .bytes b off =>
+    ∀ pos x, asByte v = some (pos, x) → b[(pos - off).toNat]? = some x → off ≤ pos →
+      pos = off ∨ pos = off + (b.length : Int) - 1
+  | _ => True
+
+theorem mem_bytes_members' (b : List Nat) (off : Int) (v : V) :
+    v ∈ (Plain.bytes b off).members ↔ ∃ i x, v = byteV i x ∧ (i, x) ∈ kden (b.map some) off := by
+  simp only [Plain.members, List.mem_map]
+  constructor
+  · rintro ⟨⟨i, c⟩, hp, rfl⟩; exact ⟨i, c, rfl, hp⟩
+  · rintro ⟨i, c, rfl, hp⟩; exact ⟨(i, c), hp, rfl⟩
+
+theorem bytesWithout_spec (b : List Nat) (off : Int) (h : (Plain.bytes b off).WF) (v : V) :
+    (WithoutAdm (.bytes b off) v → (bytesWithout b off v).WF) ∧
+    ∀ x, x ∈ (bytesWithout b off v).members ↔ x ∈ (Plain.bytes b off).members ∧ x ≠ v := by
+  unfold bytesWithout
+  cases hc : asByte v with
+  | none =>
+    refine ⟨fun _ => h, ?_⟩
+    intro x
+    simp only
+    constructor
+    · intro hm
+      refine ⟨hm, ?_⟩
+      rintro rfl
+      obtain ⟨i, y, rfl, _, hg⟩ := (mem_bytes_members b off x).1 hm
+      rw [asByte_byteV i y (h.2 y (List.mem_of_getElem? hg))] at hc; cases hc
+    · exact fun hh => hh.1
+  | some p =>
+    obtain ⟨pos, y⟩ := p
+    obtain ⟨rfl, hy⟩ := (asByte_eq_some v pos y).1 hc
+    simp only
+    have hne : ∀ j z, byteV j z ≠ byteV pos y ↔ ¬ (j = pos ∧ z = y) := by
+      intro j z
+      constructor
+      · rintro h1 ⟨rfl, rfl⟩; exact h1 rfl
+      · intro h1 he; exact h1 (byteV_inj he)
+    have lift : ∀ (b' : List Nat) (off' : Int) (n : Nat), pos = off + (n : Int) →
+        (∀ j z, (j, z) ∈ kden (b'.map some) off' ↔ (j, z) ∈ kden (b.map some) off ∧ ¬ (j = off + (n : Int) ∧ z = y)) →
+        ∀ x, x ∈ (Plain.bytes b' off').members ↔ x ∈ (Plain.bytes b off).members ∧ x ≠ byteV pos y := by
+      intro b' off' n hix hk x
+      rw [mem_bytes_members', mem_bytes_members']
+      constructor
+      · rintro ⟨j, z, rfl, hp⟩
+        obtain ⟨h1, h2⟩ := (hk j z).1 hp
+        exact ⟨⟨j, z, rfl, h1⟩, (hne j z).2 (by rw [hix]; exact h2)⟩
+      · rintro ⟨⟨j, z, rfl, hp⟩, hx⟩
+        exact ⟨j, z, rfl, (hk j z).2 ⟨hp, by rw [← hix]; exact (hne j z).1 hx⟩⟩
+    split
+    · rename_i hin
+      obtain ⟨h0, h1, hg⟩ := hin
+      obtain ⟨hidx, _⟩ := seqIndex_eq (rfl : seqIndex b.length off pos = _) h0
+      have hg' : kget (b.map some) (pos - off).toNat = some y := by
+        rw [kget_map_some, hidx]; exact hg
+      split
+      · rename_i hl1
+        refine ⟨fun _ => trivial, ?_⟩
+        intro x
+        simp only [Plain.members, List.not_mem_nil, false_iff]
+        rintro ⟨hm, hx⟩
+        obtain ⟨j, z, rfl, hle, hgz⟩ := (mem_bytes_members b off x).1 hm
+        have hlt : (j - off).toNat < b.length := by
+          apply Classical.byContradiction
+          intro hn
+          rw [List.getElem?_eq_none (by omega)] at hgz; cases hgz
+        have hj : j = pos := by omega
+        subst hj
+        rw [← hidx] at hg
+        rw [hg] at hgz
+        exact hx (by rw [Option.some.inj hgz])
+      · split
+        · rename_i _ hi0
+          have hg0 : kget (b.map some) 0 = some y := by
+            have : (pos - off).toNat = 0 := by omega
+            rw [this] at hg'; exact hg'
+          refine ⟨fun _ => ⟨?_, fun x hx => h.2 x (List.mem_of_mem_drop hx)⟩, ?_⟩
+          · intro hc
+            have : b.length ≤ 1 := by
+              have := congrArg List.length hc
+              simp at this; omega
+            have hb := h.1
+            cases b with
+            | nil => exact hb rfl
+            | cons a r => simp at this; subst this; simp at *
+          · apply lift _ _ 0 (by omega)
+            intro j z
+            have := mem_kden_drop_one (b.map some) off y hg0 j z
+            rw [← List.map_drop] at this
+            simpa using this
+        · split
+          · rename_i _ _ hil
+            have hgl : kget (b.map some) ((b.map some).length - 1) = some y := by
+              have : (pos - off).toNat = (b.map some).length - 1 := by simp; omega
+              rw [this] at hg'; exact hg'
+            have htk : (seqIndex b.length off pos).toNat = b.length - 1 := by omega
+            refine ⟨fun _ => ⟨?_, fun x hx => h.2 x (List.mem_of_mem_take hx)⟩, ?_⟩
+            · intro hc
+              have := congrArg List.length hc
+              simp only [List.length_take, List.length_nil] at this
+              omega
+            · rw [htk]
+              apply lift _ _ (b.length - 1) (by omega)
+              intro j z
+              have := mem_kden_drop_last (b.map some) off y hgl j z
+              rw [← List.map_take] at this
+              simpa using this
+          · rename_i n1 n2 n3
+            refine ⟨?_, ?_⟩
+            · intro hadm
+              exfalso
+              have := hadm pos y hc (by rw [hidx]; exact hg) (by omega)
+              rcases this with hp | hp
+              · exact n2 (by omega)
+              · exact n3 (by omega)
+            · intro x
+              rw [fromFrozen_members, FinSet.mem_erase, FinSet.mem_mk]
+    · rename_i hout
+      refine ⟨fun _ => h, ?_⟩
+      intro x
+      constructor
+      · intro hm
+        refine ⟨hm, ?_⟩
+        rintro rfl
+        obtain ⟨j, z, he, hle, hg⟩ := (mem_bytes_members b off _).1 hm
+        obtain ⟨rfl, rfl⟩ := byteV_inj he
+        have hlt : (pos - off).toNat < b.length := by
+          apply Classical.byContradiction
+          intro hn
+          rw [List.getElem?_eq_none (by omega)] at hg; cases hg
+        have hidx := seqIndex_of_range b.length off pos (by omega) (by omega)
+        exact hout ⟨by rw [hidx]; omega, by rw [hidx]; omega, by rw [hidx]; exact hg⟩
+      · exact fun hh => hh.1
+
+theorem mem_dictMembers_remove (m : List (V × DVal)) (hn : (m.map (·.1)).Nodup) (k : V) (v : V) :
+    v ∈ dictMembers (AL.remove k m) ↔
+      ∃ k' d' y, (k', d') ∈ m ∧ k' ≠ k ∧ y ∈ d'.vals ∧ v = entryV k' y := by
+  rw [mem_dictMembers]
+  constructor
+  · rintro ⟨k', d', y, hm, hy, rfl⟩
+    obtain ⟨h1, h2⟩ := (AL.mem_remove m k hn (k', d')).1 hm
+    exact ⟨k', d', y, h1, h2, hy, rfl⟩
+  · rintro ⟨k', d', y, hm, hne, hy, rfl⟩
+    exact ⟨k', d', y, (AL.mem_remove m k hn (k', d')).2 ⟨hm, hne⟩, hy, rfl⟩
+
+theorem dictWithout_spec (m : List (V × DVal)) (h : (Plain.dict m).WF) (v : V) :
+    (dictWithout m v).WF ∧ ∀ x, x ∈ (dictWithout m v).members ↔ x ∈ (Plain.dict m).members ∧ x ≠ v := by
+  have hok : DictOK m := ⟨h.2.1, h.2.2⟩
+  have same : ∀ (_ : v ∉ dictMembers m), (Plain.dict m).WF ∧
+      ∀ x, x ∈ (Plain.dict m).members ↔ x ∈ (Plain.dict m).members ∧ x ≠ v := by
+    intro hv
+    refine ⟨h, ?_⟩
+    intro x
+    constructor
+    · intro hm; exact ⟨hm, fun he => hv (by rw [← he]; exact hm)⟩
+    · exact fun hh => hh.1
+  have aux : ∀ (x : V) (k : V) (d0 : DVal), (∃ d y, some d0 = some d ∧ y ∈ d.vals ∧ x = entryV k y) ↔
+      ∃ y, y ∈ d0.vals ∧ x = entryV k y := by
+    intro x k d0
+    constructor
+    · rintro ⟨d, y, hd, hy, hv⟩
+      cases hd
+      exact ⟨y, hy, hv⟩
+    · rintro ⟨y, hy, hv⟩
+      exact ⟨d0, y, rfl, hy, hv⟩
+  unfold dictWithout
+  cases hc : asEntry v with
+  | none =>
+    apply same
+    intro hm
+    obtain ⟨k, d, y, _, _, rfl⟩ := (mem_dictMembers m v).1 hm
+    rw [asEntry_entryV] at hc; cases hc
+  | some p =>
+    obtain ⟨k, x⟩ := p
+    have hv := (asEntry_eq_some v k x).1 hc
+    subst hv
+    simp only
+    cases hg : AL.get k m with
+    | none =>
+      apply same
+      intro hm
+      obtain ⟨k', d, y, hmem, _, he⟩ := (mem_dictMembers m _).1 hm
+      obtain ⟨rfl, rfl⟩ := entryV_inj he
+      exact (AL.get_eq_none_iff m k).1 hg (List.mem_map.2 ⟨(k, d), hmem, rfl⟩)
+    | some d =>
+      have hmem := (AL.get_eq_some_of_mem m hok.1 k d).1 hg
+      cases d with
+      | one w =>
+        simp only
+        split
+        · rename_i hxw
+          subst hxw
+          have hmm : ∀ y, y ∈ dictMembers (AL.remove k m) ↔ y ∈ (Plain.dict m).members ∧ y ≠ entryV k x := by
+            intro y
+            show _ ↔ y ∈ dictMembers m ∧ _
+            rw [mem_dictMembers_remove m hok.1, mem_dictMembers_split m hok.1 k, hg, aux]
+            constructor
+            · rintro ⟨k', d', z, hm', hne, hz, rfl⟩
+              refine ⟨Or.inr ⟨k', d', z, hm', hne, hz, rfl⟩, ?_⟩
+              intro he; exact hne (entryV_inj he).1
+            · rintro ⟨(⟨z, hz, rfl⟩ | hr), hne⟩
+              · simp only [DVal.vals, List.mem_singleton] at hz
+                subst hz; exact absurd rfl hne
+              · exact hr
+          split
+          · rename_i hemp
+            refine ⟨trivial, ?_⟩
+            intro y
+            rw [← hmm]
+            have : AL.remove k m = [] := by simpa using hemp
+            simp [this, Plain.members, dictMembers]
+          · rename_i hne
+            refine ⟨⟨?_, AL.nodup_remove m k hok.1, ?_⟩, hmm⟩
+            · intro hc'; exact hne (by simp [hc'])
+            · intro kd hkd
+              exact hok.2 kd ((AL.mem_remove m k hok.1 kd).1 hkd).1
+        · rename_i hxw
+          apply same
+          intro hm
+          obtain ⟨k', d', y, hmem', hy, he⟩ := (mem_dictMembers m _).1 hm
+          obtain ⟨rfl, rfl⟩ := entryV_inj he
+          have := (AL.get_eq_some_of_mem m hok.1 k d').2 hmem'
+          rw [hg] at this
+          cases this
+          simp only [DVal.vals, List.mem_singleton] at hy
+          exact hxw hy
+      | many vs =>
+        have hw : (DVal.many vs).WF := hok.2 _ hmem
+        simp only
+        split
+        · rename_i hxin
+          have hnonempty : FinSet.erase vs x ≠ [] := by
+            obtain ⟨hs, hl⟩ := hw
+            cases vs with
+            | nil => simp at hl
+            | cons a r =>
+              cases r with
+              | nil => simp at hl
+              | cons b t =>
+                have hab : a ≠ b := by
+                  intro he
+                  have := (List.pairwise_cons.1 hs).1 b (by simp)
+                  rw [he] at this
+                  exact V.cmp_lt_irrefl b this
+                intro hc'
+                have ha : a ∉ FinSet.erase (a :: b :: t) x := by rw [hc']; simp
+                have hb : b ∉ FinSet.erase (a :: b :: t) x := by rw [hc']; simp
+                rw [FinSet.mem_erase] at ha hb
+                have e1 : a = x := Classical.byContradiction fun hn => ha ⟨by simp, hn⟩
+                have e2 : b = x := Classical.byContradiction fun hn => hb ⟨by simp, hn⟩
+                exact hab (e1.trans e2.symm)
+          have hok' := hok.put k _ (newMultipleValues_wf _ hnonempty)
+          refine ⟨⟨?_, hok'.1, hok'.2⟩, ?_⟩
+          · intro hc'
+            have : (k, newMultipleValues (FinSet.erase vs x)) ∈ AL.put k (newMultipleValues (FinSet.erase vs x)) m :=
+              (AL.mem_put m k _ hok.1 _).2 (Or.inl rfl)
+            rw [hc'] at this; cases this
+          · intro y
+            show y ∈ dictMembers _ ↔ y ∈ dictMembers m ∧ _
+            rw [mem_dictMembers_put m hok.1, mem_dictMembers_split m hok.1 k, hg, aux, newMultipleValues_vals]
+            have hsorted : FinSet.mk (FinSet.erase vs x) = FinSet.erase vs x :=
+              mk_of_sorted _ (FinSet.sorted_erase vs x hw.1)
+            rw [hsorted]
+            constructor
+            · rintro (⟨z, hz, rfl⟩ | hr)
+              · obtain ⟨hz1, hz2⟩ := (FinSet.mem_erase vs x z).1 hz
+                exact ⟨Or.inl ⟨z, by simpa [DVal.vals] using hz1, rfl⟩, fun he => hz2 (entryV_inj he).2⟩
+              · obtain ⟨k', d', z, hm', hne, hz, rfl⟩ := hr
+                exact ⟨Or.inr ⟨k', d', z, hm', hne, hz, rfl⟩, fun he => hne (entryV_inj he).1⟩
+            · rintro ⟨(⟨z, hz, rfl⟩ | hr), hne⟩
+              · refine Or.inl ⟨z, (FinSet.mem_erase vs x z).2 ⟨by simpa [DVal.vals] using hz, ?_⟩, rfl⟩
+                intro he; exact hne (by rw [he])
+              · exact Or.inr hr
+        · rename_i hxin
+          apply same
+          intro hm
+          obtain ⟨k', d', y, hmem', hy, he⟩ := (mem_dictMembers m _).1 hm
+          obtain ⟨rfl, rfl⟩ := entryV_inj he
+          have := (AL.get_eq_some_of_mem m hok.1 k d').2 hmem'
+          rw [hg] at this
+          cases this
+          exact hxin (by simpa [DVal.vals] using hy)
+
+theorem Plain.without_spec (p : Plain) (h : p.WF) (v : V) :
+    (WithoutAdm p v → (p.without v).WF) ∧
+    ∀ x, x ∈ (p.without v).members ↔ x ∈ p.members ∧ x ≠ v := by
+  cases p with
+  | empty => exact ⟨fun _ => trivial, by simp [Plain.without, Plain.members]⟩
+  | true_ =>
+    simp only [Plain.without]
+    by_cases hv : v = .tup []
+    · subst hv
+      simp only [if_true]
+      exact ⟨fun _ => trivial, by simp [Plain.members]⟩
+    · simp only [hv, if_false]
+      refine ⟨fun _ => trivial, ?_⟩
+      intro x
+      simp only [Plain.members, List.mem_singleton]
+      constructor
+      · rintro rfl; exact ⟨rfl, fun he => hv he.symm⟩
+      · exact fun hh => hh.1
+  | generic xs =>
+    simp only [Plain.without]
+    refine ⟨fun _ => fromFrozen_wf _ (FinSet.sorted_erase xs v h.1) ?_, ?_⟩
+    · intro x hx; exact h.2.2.2 x ((FinSet.mem_erase xs v x).1 hx).1
+    · intro x; rw [fromFrozen_members]; exact FinSet.mem_erase xs v x
+  | str s off holes =>
+    obtain ⟨w1, w2⟩ := strWithout_spec s off holes h v
+    exact ⟨fun _ => w1, w2⟩
+  | bytes b off => exact bytesWithout_spec b off h v
+  | arr vs off count =>
+    obtain ⟨w1, w2⟩ := arrWithout_spec vs off count h v
+    exact ⟨fun _ => w1, w2⟩
+  | dict m =>
+    obtain ⟨w1, w2⟩ := dictWithout_spec m h v
+    exact ⟨fun _ => w1, w2⟩
+  | rel names rows =>
+    have same : v ∉ rows → (WithoutAdm (.rel names rows) v → (Plain.rel names rows).WF) ∧
+        ∀ x, x ∈ (Plain.rel names rows).members ↔ x ∈ (Plain.rel names rows).members ∧ x ≠ v := by
+      intro hv
+      refine ⟨fun _ => h, ?_⟩
+      intro x
+      constructor
+      · intro hm; exact ⟨hm, fun he => hv (by rw [← he]; exact hm)⟩
+      · exact fun hh => hh.1
+    simp only [Plain.without]
+    cases v with
+    | num n =>
+      apply same
+      intro hm
+      have := h.2.2 _ hm
+      simp [bucketOf] at this
+    | set xs =>
+      apply same
+      intro hm
+      have := h.2.2 _ hm
+      simp [bucketOf] at this
+    | tup as =>
+      simp only
+      split
+      · rename_i hn
+        simp only [relBody]
+        cases hl : FinSet.erase rows (.tup as) with
+        | nil =>
+          simp only [List.isEmpty_nil, if_true]
+          refine ⟨fun _ => trivial, ?_⟩
+          intro x
+          have := FinSet.mem_erase rows (.tup as) x
+          rw [hl] at this
+          simp only [Plain.members, List.not_mem_nil, false_iff] at this ⊢
+          exact this
+        | cons a r =>
+          simp only [List.isEmpty_cons, Bool.false_eq_true, if_false]
+          rw [← hl]
+          refine ⟨fun _ => ⟨FinSet.sorted_erase rows _ h.1, by rw [hl]; simp, ?_⟩, ?_⟩
+          · intro x hx; exact h.2.2 x ((FinSet.mem_erase rows _ x).1 hx).1
+          · intro x; exact FinSet.mem_erase rows _ x
+      · rename_i hn
+        apply same
+        intro hm
+        obtain ⟨as', he, hn'⟩ := bucketOf_rel (h.2.2 _ hm)
+        simp only [V.tup.injEq] at he
+        subst he
+        exact hn hn'
